@@ -316,6 +316,9 @@ def build_objects(inst, variant=None):
       rows.append({'date': day0 + pd.Timedelta(days=d), 'geo': ghost, 'response': float('nan')})
   r = random.Random(inst['shuffle_seed'] + variant.get('shuffle', 0))
   r.shuffle(rows)
+  if variant.get('date_major'):
+    # delivered date by date (e.g. a concatenation of daily extracts), the geos in a different order on every date
+    rows.sort(key=lambda row: row['date'])
   df = pd.DataFrame(rows)
   if 'keep' in variant:
     variant['keep']['df'] = df
